@@ -35,7 +35,13 @@ let fuel = nat_of_int 400000
 let run_line line =
     let i = String.index line '\t' in
     let inp = String.sub line 0 i and prog = String.sub line (i + 1) (String.length line - i - 1) in
-    if inp = "F" then begin
+    if inp = "U8" then begin          (* U8 <code points> : RFC 3629 encoder of Utf.v *)
+      let zs = List.map (fun c -> z_of_bz (BZ.of_string c)) (if prog = "" then [] else String.split_on_char ',' prog) in
+      print_endline (String.concat "," (List.map (fun b -> BZ.to_string (bz_of_z b)) (utf8_encode zs)))
+    end else if inp = "U8D" then begin  (* U8D <bytes> : strict decoder *)
+      let zs = List.map (fun c -> z_of_bz (BZ.of_string c)) (if prog = "" then [] else String.split_on_char ',' prog) in
+      (match utf8_decode zs with Some l -> print_endline ("OK " ^ String.concat "," (List.map (fun b -> BZ.to_string (bz_of_z b)) l)) | None -> print_endline "REJECT")
+    end else if inp = "F" then begin
       (* F <which> <sign> <mantissa> <exponent> : the model's rounding of the double  sign * mantissa * 2^exponent *)
       (match String.split_on_char ' ' prog with
        | [k; sg; m; e] ->
